@@ -47,6 +47,17 @@ def main():
         "not_applicable": na,
         "notes": "Exit codes: 0 held, 1 VIOLATION, 2 machinery broken/inconclusive. VERIF_SEED and VERIF_REPO are honoured. known_findings.json lists recorded and fixed defects.",
     }
+    # extension families (spec growth beyond the listed properties): listed as engines only, never as checks
+    import glob
+    for fp in sorted(glob.glob(os.path.join(V, "tools", "manifest", "extra-*.json"))):
+        name = os.path.basename(fp)[:-5]
+        try:
+            j = json.load(open(fp))
+        except Exception:
+            continue
+        m["engines"].append({"name": name, "path": "tools/checks/%s.py" % name.replace("-", "_"), "serves_properties": [],
+                             "kind_free_text": "extension family (not a listed property; run: python3 tools/vcheck.py %s quick|thorough): %s"
+                                               % (name, (j.get("tech") or j.get("text") or "")[:300])})
     with open(os.path.join(V, "MANIFEST.json"), "w") as f:
         json.dump(m, f, indent=1)
 if __name__ == "__main__":
